@@ -476,6 +476,37 @@ def process_chunk(prop, st, binp, asan_bin, seed, tier, a, b, workdir, agg, lock
         # valgrind memcheck on the non-sanitized build: uninitialised reads (which ASan cannot see) and a second opinion on invalid accesses
         wrap = memcheck_wrap(workdir)
         idle *= 30
+    def attribute_by_asan(lo, hi, res_):
+        """a non-sanitized worker died from heap corruption caused by an earlier case of the same process: find the culprit by
+        re-running the cases [lo, hi) it had completed under ASan; returns True if a memory error was found (and reported)"""
+        if not (asan_bin and asan_bin != binp and st['flavour'] != 'asan' and hi > lo and not wrap):
+            return False
+        found = False
+        lo_ = lo
+        for _ in range(6):
+            c2 = run_worker(prop, 'asan', asan_bin, seed, tier, lo_, hi, workdir, idle * 4, extra)
+            if c2['crashed_case'] is None or not c2.get('crash_in_case'):
+                break
+            k2 = c2['crashed_case']
+            key2 = crash_key(c2['stderr'], c2['rc'])
+            desc2 = ''
+            for ev in c2['events']:
+                if ev.get('ev') == 'begin' and ev.get('case') == k2:
+                    desc2 = ev.get('desc', '')
+            marks = [m_ for m_ in st.get('crash_markers', []) if m_ in desc2]
+            if marks:
+                key2 += '+' + ','.join(marks)
+            with lock:
+                agg['viols'].append(dict(ev='viol', case=k2, key='crash:' + key2, detail='the %s worker died later in the same process (rc=%s, %s); the cases it had '
+                                         'completed, re-run under ASan: memory error in case %d [%s]' % (st['flavour'], res_['rc'], res_['stderr'][-200:].strip().replace('\n', ' '), k2, desc2),
+                                         _stage=dict(st, flavour='asan'), stderr=c2['stderr'][-6000:]))
+                agg['counters']['driver.deaths_attributed_by_asan'] = agg['counters'].get('driver.deaths_attributed_by_asan', 0) + 1
+            found = True
+            lo_ = k2 + 1
+            if lo_ >= hi:
+                break
+        return found
+
     cur = a
     guard = 0
     while cur < b and guard < 50:
@@ -505,31 +536,7 @@ def process_chunk(prop, st, binp, asan_bin, seed, tier, a, b, workdir, agg, lock
         if not res.get('crash_in_case'):
             # died between cases.  In a non-sanitized flavour this is what heap corruption by an *earlier* case of the same process looks
             # like (glibc aborts in a later free/malloc): re-run the cases this worker had completed under ASan to find the culprit.
-            attributed = False
-            if asan_bin and asan_bin != binp and st['flavour'] != 'asan' and res['done_upto'] > cur and not wrap:
-                lo_ = cur
-                for _ in range(6):
-                    c2 = run_worker(prop, 'asan', asan_bin, seed, tier, lo_, res['done_upto'], workdir, idle * 4, extra)
-                    if c2['crashed_case'] is None or not c2.get('crash_in_case'):
-                        break
-                    k2 = c2['crashed_case']
-                    key2 = crash_key(c2['stderr'], c2['rc'])
-                    desc2 = ''
-                    for ev in c2['events']:
-                        if ev.get('ev') == 'begin' and ev.get('case') == k2:
-                            desc2 = ev.get('desc', '')
-                    marks = [m_ for m_ in st.get('crash_markers', []) if m_ in desc2]
-                    if marks:
-                        key2 += '+' + ','.join(marks)
-                    with lock:
-                        agg['viols'].append(dict(ev='viol', case=k2, key='crash:' + key2, detail='the %s worker died between cases (rc=%s, %s); the same cases under ASan: '
-                                                 'memory error in case %d [%s]' % (st['flavour'], res['rc'], res['stderr'][-200:].strip().replace('\n', ' '), k2, desc2),
-                                                 _stage=dict(st, flavour='asan'), stderr=c2['stderr'][-6000:]))
-                        agg['counters']['driver.between_case_deaths_attributed_by_asan'] = agg['counters'].get('driver.between_case_deaths_attributed_by_asan', 0) + 1
-                    attributed = True
-                    lo_ = k2 + 1
-                    if lo_ >= res['done_upto']:
-                        break
+            attributed = attribute_by_asan(cur, res['done_upto'], res)
             if attributed:
                 cur = res['done_upto']       # go on behind the point of death in a fresh process
                 continue
@@ -570,6 +577,11 @@ def process_chunk(prop, st, binp, asan_bin, seed, tier, a, b, workdir, agg, lock
             for ev in use['events']:
                 if ev.get('ev') == 'begin' and ev.get('case') == k:
                     desc = ev.get('desc', '')
+            if not reproduced and attribute_by_asan(cur, k, res):
+                # the death inside case k does not reproduce on its own and an earlier case of the same process corrupts memory
+                # under ASan: the earlier case is the finding, case k is innocent
+                cur = k
+                continue
             if not reproduced:
                 key = 'nonrepro-' + key
             # optional root-cause markers: configuration fragments of the case description named by the stage
